@@ -140,7 +140,7 @@ Same(t, a, b) ==
     [] t.k = "st" -> LET fs == Fields(t) IN \A i \in 1..Len(fs) : Same(fs[i].t, FieldGet(t, a, fs[i].path), FieldGet(t, b, fs[i].path))
     [] OTHER -> a = b
 
-DecOpts == [num |-> "none", cs |-> FALSE, duf |-> FALSE, vs |-> TRUE]
+DecOpts == [num |-> "none", cs |-> FALSE, duf |-> FALSE, vs |-> TRUE, ue |-> FALSE]
 Decoded(t, e) == IF e.err THEN [hard |-> FALSE, soft |-> FALSE, v |-> [g |-> "none"]] ELSE Dec(t, e.d, Zero(t), DecOpts)
 
 OptsFor == {StdEncOpts} \cup (IF NOpts = 0 THEN {} ELSE RandomSubset(NOpts, EncOpts))
